@@ -664,7 +664,16 @@ func (r *CliRun) traceFolded() []*Ev {
 	lastDetect := map[uint64]*Ev{}
 	lastClose := map[uint64]*Ev{}
 	pend := map[uint64][]*Ev{}
+	ended := false
 	for _, e := range evs {
+		if ended {
+			// the observation ends with obs.end; what goroutines of the closed Client still emit until the run is taken off the
+			// recorder is cut off at arbitrary points and is not part of the trace
+			break
+		}
+		if e.Ev == "obs.end" {
+			ended = true
+		}
 		switch e.Ev {
 		case "k.detect":
 			lastDetect[e.gid] = e
